@@ -517,6 +517,7 @@ func main() {
 	wg.Wait()
 
 	agg := wmsg{Probes: map[string]int{}, Faults: map[string]int{}, SigCounts: map[string]int{}}
+	simSeconds := 0.0
 	hashes := map[string]bool{}
 	states := map[string]bool{}
 	type viol struct{ sig, detail, replay string }
@@ -548,7 +549,7 @@ func main() {
 					agg.PureRuns += m.PureRuns
 					agg.Nontrivial += m.Nontrivial
 					agg.Steps += m.Steps
-					agg.SimNS += m.SimNS
+					simSeconds += float64(m.SimNS) / 1e9
 					agg.Stuck += m.Stuck
 					agg.StepCap += m.StepCap
 					agg.Leaky += m.Leaky
@@ -633,7 +634,7 @@ func main() {
 		"pure_input_runs":     agg.PureRuns,
 		"nontrivial_runs":     agg.Nontrivial,
 		"seeds_per_hour":      int(float64(agg.Runs) / wall * 3600),
-		"sim_time_total_s":    float64(agg.SimNS) / 1e9,
+		"sim_time_total_s":    simSeconds,
 		"steps_total":         agg.Steps,
 		"faults_fired":        agg.Faults,
 		"fault_free_runs":     agg.FaultFree,
@@ -668,7 +669,7 @@ func main() {
 		_ = k
 	}
 	fmt.Printf("%s tier=%s seed=%d runs=%d nontrivial=%d distinct=%d steps=%d sim=%.0fs wall=%.0fs known=%d violations=%d\n",
-		id, tier, seed, agg.Runs, agg.Nontrivial, distinct, agg.Steps, float64(agg.SimNS)/1e9, wall, len(knownSeen), len(newViol))
+		id, tier, seed, agg.Runs, agg.Nontrivial, distinct, agg.Steps, simSeconds, wall, len(knownSeen), len(newViol))
 	os.Exit(exit)
 }
 
